@@ -135,7 +135,7 @@ def replace_implicit_matmul(source: str) -> str:
     yield from processing.find_replace(source, find, replace)
 
     find = "[[np.dot({{left_row}}, {{right_row}}) for {{left_row}} in {{left}}] for {{right_row}} in {{right}}]"
-    replace = "np.matmul({{right}}.T, {{left}}.T)"
+    replace = "np.matmul({{right}}, {{left}}.T)"
     yield from processing.find_replace(source, find, replace)
 
     find = """
